@@ -653,27 +653,32 @@ func ruleLockRegion() check.Rule {
 						c.Violation(key, op.Call.Pos(), "a terminal notification takes the producer lock with TryLock: under contention the Error/Complete is dropped and never reaches the subscriber")
 						continue
 					}
-					guarded := false
-					for cn := ast.Node(op.Call); cn != nil && cn != ast.Node(fd); cn = m.Parent(p, cn) {
-						if ifs, ok := m.Parent(p, cn).(*ast.IfStmt); ok && cn == ifs.Body {
-							if be, ok := ast.Unparen(ifs.Cond).(*ast.BinaryExpr); ok && be.Op == token.EQL {
-								fieldOK, constOK := false, false
-								for _, side := range []ast.Expr{be.X, be.Y} {
-									if s := fieldSelOf(info, side, rv); s != nil && s.Sel.Name == "backpressure" {
-										fieldOK = true
-									}
-									if id, ok := ast.Unparen(side).(*ast.Ident); ok {
-										if k, ok := objOf(info, id).(*types.Const); ok && k.Name() == "BackpressureDrop" {
-											constOK = true
-										}
-									}
-								}
-								if fieldOK && constOK {
-									guarded = true
+					// control dependence on `backpressure == BackpressureDrop`, in the if form or the switch form
+					dropAtom := func(e ast.Expr) int {
+						be, ok := ast.Unparen(e).(*ast.BinaryExpr)
+						if !ok || (be.Op != token.EQL && be.Op != token.NEQ) {
+							return 0
+						}
+						fieldOK, constOK := false, false
+						for _, side := range []ast.Expr{be.X, be.Y} {
+							if s := fieldSelOf(info, side, rv); s != nil && s.Sel.Name == "backpressure" {
+								fieldOK = true
+							}
+							if id, ok := ast.Unparen(side).(*ast.Ident); ok {
+								if k, ok := objOf(info, id).(*types.Const); ok && k.Name() == "BackpressureDrop" {
+									constOK = true
 								}
 							}
 						}
+						if !fieldOK || !constOK {
+							return 0
+						}
+						if be.Op == token.EQL {
+							return +1
+						}
+						return -1
 					}
+					guarded := guardedBy(fd.Body, op.Call, dropAtom)
 					if guarded {
 						c.OK(key, op.Call.Pos(), "TryLock (drop on contention) only under backpressure == BackpressureDrop")
 					} else {
